@@ -260,6 +260,57 @@ macro_rules! per_type {
                     Err(m) => ctx.violation(&format!("C19|shape|rem|{}", tname), json!({"what": m})),
                 }
             }
+            // ---- remainder where the quotient is within a few ulps of a whole number without being one
+            // (0.3 % 0.1, 5.999999999999999 % 2): the truncated quotient is still trunc(fl(a/b)); no noise band
+            // here (a perturbation would cross the jump), the exact floating-point formula is the reference
+            {
+                let vd2 = rng.sign() * [0.1, 0.2, 0.7, 1.0 / 3.0, 2.0, 1.1][rng.usize(6)] * if rng.bool() { 1.0 } else { rng.log_uniform(0.5, 8.0) };
+                let whole = rng.sign() * (1 + rng.usize(12)) as f64;
+                let mut vn2 = whole * vd2;
+                // a hair towards zero, so that |a/b| falls just short of |whole| (when it rounds to the whole
+                // number itself the case is simply an exact multiple, also legitimate)
+                for _ in 0..rng.usize(3) {
+                    vn2 = if vn2 > 0.0 { super::c14::next_down(vn2) } else { super::c14::next_up(vn2) };
+                }
+                let q = vn2 / vd2;
+                if q != q.trunc() {
+                    let pn = gen_parts(rng, vn2, order);
+                    let pd = gen_parts(rng, vd2, order);
+                    let n_: $T = mk(&pn);
+                    let d_: $T = mk(&pd);
+                    let rn = to_ref(pn.0, &pn.1, &pn.2, &pn.3, order);
+                    let rd = to_ref(pd.0, &pd.1, &pd.2, &pd.3, order);
+                    let dq = q.trunc();
+                    let forms: Vec<(&str, $T, RNum)> = vec![
+                        ("dd", &n_ % &d_, RNum::rem(&rn, &rd, &mut Noise::exact())),
+                        ("fd", vn2 % &d_, RNum::rem(&RNum::constant(vn2), &rd, &mut Noise::exact())),
+                        ("df", &n_ % vd2, RNum::rem(&rn, &RNum::constant(vd2), &mut Noise::exact())),
+                    ];
+                    for (form, got, want) in forms.iter() {
+                        ctx.eval(1);
+                        ctx.asserted(1);
+                        ctx.class(&format!("rem-near-whole-quotient:{}:{}", tname, form));
+                        let ok = match got.to_rnum() {
+                            Ok(m) => {
+                                let vs = vn2.abs().max((dq * vd2).abs());
+                                let gs = rn.g.values().chain(rd.g.values()).fold(0.0f64, |a, x| a.max(x.abs())) * (1.0 + dq.abs());
+                                let hs = rn.h.values().chain(rd.h.values()).fold(0.0f64, |a, x| a.max(x.abs())) * (1.0 + dq.abs());
+                                let names: BTreeSet<String> = m.names().union(&want.names()).cloned().collect();
+                                (m.v - want.v).abs() <= 8.0 * f64::EPSILON * vs
+                                    && names.iter().all(|a| (m.gd(a) - want.gd(a)).abs() <= 8.0 * f64::EPSILON * gs)
+                                    && (!second || names.iter().all(|a| names.iter().all(|b| (m.hd(a, b) - want.hd(a, b)).abs() <= 8.0 * f64::EPSILON * hs)))
+                            }
+                            Err(_) => false,
+                        };
+                        if !ok {
+                            ctx.violation(&format!("C19|rem-near-whole-quotient|{}|{}", tname, form), json!({"type": tname, "form": form, "a": n_.describe(), "b": d_.describe(), "a_value": fj(vn2), "b_value": fj(vd2),
+                                "a/b in floating point": fj(q), "truncated_quotient": dq, "observed": got.describe(), "expected_value": fj(want.v)}));
+                        }
+                    }
+                } else {
+                    ctx.skip("quotient rounded to a whole number");
+                }
+            }
             // ---- Iterator::sum == left fold from zero
             let k = rng.usize(6);
             let items: Vec<$T> = (0..k).map(|_| { let v = rng.real(); mk(&gen_parts(rng, v, order)) }).collect();
@@ -505,13 +556,18 @@ impl Prop for C19 {
             v.push(format!("sign:Number<{}>:negative", k));
             v.push(format!("rem:Number<{}>:fn", k));
         }
+        for t in ["Dual", "Dual2"] {
+            for f in ["dd", "fd", "df"] {
+                v.push(format!("rem-near-whole-quotient:{}:{}", t, f));
+            }
+        }
         v
     }
     fn min_evaluations(&self, tier: Tier) -> u64 {
         tier.pick(1_000_000, 50_000_000)
     }
     fn rule(&self) -> String {
-        "Seeded random and boundary pairs (negative values, negative divisors, equal values, +-0, NaN for comparisons only) on Dual, Dual2 and the Number container: 12 comparison forms per pair against the float comparison; abs against sign-flip of value and all derivatives (exact); is_positive / is_negative / signum against the sign of the (non-zero) value, signum carrying no derivative; a % b in 10 operand/ownership forms against a - b*trunc(a/b) in reference AD (noise band); Iterator::sum against the explicit left fold from zero (exact); x+0, 0+x, x*1, 1*x against x (exact, and by ==); is_zero. distinct_nontrivial = one per generated case (each has fresh random values and variable lists).".into()
+        "Seeded random and boundary pairs (negative values, negative divisors, equal values, +-0, NaN for comparisons only) on Dual, Dual2 and the Number container: 12 comparison forms per pair against the float comparison; abs against sign-flip of value and all derivatives (exact); is_positive / is_negative / signum against the sign of the (non-zero) value, signum carrying no derivative; a % b in 10 operand/ownership forms against a - b*trunc(a/b) in reference AD (noise band); the same with a quotient a few ulps short of a whole number (0.3 % 0.1) against the exact floating-point formula; Iterator::sum against the explicit left fold from zero (exact); x+0, 0+x, x*1, 1*x against x (exact, and by ==); is_zero. distinct_nontrivial = one per generated case (each has fresh random values and variable lists).".into()
     }
     fn assumptions(&self) -> Vec<String> {
         vec!["remainder cases with a/b within 1e-6 of an integer are regenerated (outside the formula's domain)".into(), "abs is not asserted within 1e-6 of zero".into()]
